@@ -36,6 +36,7 @@ type World struct {
 	specFiles []string
 	macros    map[string]*Macro
 	recvInv   map[string][]*Clause
+	replaySolver string
 }
 
 func shortPkg(path string) string {
